@@ -5,6 +5,7 @@ import Sylvia.Model.Dispatch
 import Sylvia.Model.Runtime
 import Sylvia.Model.Reply
 import Sylvia.Model.Facts
+import Sylvia.Model.Validate
 /-! Driver operations over the current program. -/
 namespace Driver
 open Sylvia Gen
@@ -371,6 +372,28 @@ def opFacts (st : State) (rest : String) : String :=
     | none => "bad-op"
   | _ => "bad-op"
 
+def wordsOf (j : Json) : List Validate.AttrWord :=
+  (jarr j).map fun w => match w with
+    | .arr [p, x] => { parser := jstr p, word := Str.ofString (jstr x) }
+    | _ => { parser := "", word := [] }
+
+def opValidate (rest : String) : String :=
+  match splitN rest 2 with
+  | [what, json] =>
+    match parseJson json with
+    | none => "bad-json"
+    | some j =>
+      let rules :=
+        if what == "contract" then
+          Validate.validateContract { contract := contractOf (jget j "contract"), hasNew := jbool (jget j "has_new"), newParams := jnat (jget j "new_params"),
+                                      words := wordsOf (jget j "words"), redefined := (jarr (jget j "redefined")).map jstr }
+        else if what == "iface" then
+          Validate.validateInterface { iface := interfaceOf (jget j "iface"), generics := jnat (jget j "generics"), hasError := jbool (jget j "has_error"),
+                                       words := wordsOf (jget j "words"), redefined := (jarr (jget j "redefined")).map jstr }
+        else Validate.validateEntryPoints (contractOf (jget j "contract")) (jnat (jget j "given")) (wordsOf (jget j "words"))
+      if rules.isEmpty then "clean" else "dirty"
+  | _ => "bad-op"
+
 def step (st : State) (line : String) : State × Option String :=
   let (op, rest) := splitOp line
   match op with
@@ -386,6 +409,7 @@ def step (st : State) (line : String) : State × Option String :=
   | "ep" => (st, some (opEp st))
   | "strip" => (st, some (opStrip rest))
   | "facts" => (st, some (opFacts st rest))
+  | "validate" => (st, some (opValidate rest))
   | "rids" => (st, some (opRids st))
   | "reply" => (st, some (opReply st rest))
   | "submsg" => (st, some (opSubmsg st rest))
